@@ -28,6 +28,8 @@ def gen_cases(tier, seed):
     rng = gen.rng_for(seed, "c04", tier)
     n = 600 if tier == "quick" else 12000
     cases = [{"scenario": s, "seed": int(rng.integers(2 ** 31))} for s in ("old-root-reused", "retained-twice", "micro-batches", "leaf-root")]
+    for k in range(n // 10):
+        cases.append({"scenario": "exact", "seed": int(rng.integers(2 ** 31))})
     for k in range(n):
         cases.append({"scenario": "random", "seed": int(rng.integers(2 ** 31)), "n_events": int(rng.integers(5, 61 if tier == "thorough" else 31))})
     return cases
@@ -408,7 +410,47 @@ def is_consumed(prog, node):
     return any(node in ins["in"] for ins in prog["instrs"])
 
 
+def run_exact(ns, mon, case):
+    """contributions that are exact in the leaf's own arithmetic (powers of two of very different magnitude): the accumulated .grad is their exact
+    sum, call after call and across every kind of reset - no finite-difference tolerance involved"""
+    T, nn = ns.Tensor, ns.nn
+    rng = gen.rng_for(case["seed"], "c04x")
+    viol, counters = [], {"exact_histories": 1}
+    for dt, exps in ((np.float64, [20, 0, -30, -12, 3]), (np.float32, [10, 0, -11, -5, 2])):
+        x = nn.Parameter(T(rng.standard_normal((3,)).astype(dt), requires_grad=True))
+        box = nn.Module(); box.p = x
+        opt = ns.optim.SGD([x], lr=0.0)
+        total = np.zeros(3, dtype=np.float64)
+        order = [int(i) for i in rng.permutation(len(exps))]
+        for step, i in enumerate(order * 2):
+            c = float(2.0 ** exps[i])
+            if rng.random() < 0.5:
+                (x * c).sum().backward()
+            else:
+                (x * T(np.full(3, c, dtype=dt))).sum().backward()
+            total += c
+            counters["exact_comparisons"] = counters.get("exact_comparisons", 0) + 1
+            g = x._grad
+            if g is None or not np.array_equal(np.asarray(g, dtype=np.float64), total):
+                viol.append(V(f"exact:leaf-gradient-is-not-the-exact-sum:{np.dtype(dt).name}", "contributions 2^k of different magnitude, each exactly representable "
+                              "together in the leaf's dtype, did not add up exactly (the gradient buffer has less precision than the leaf?)",
+                              got=None if g is None else np.asarray(g, dtype=np.float64).tolist(), want=total.tolist(), step=step, dtype=np.dtype(dt).name))
+                break
+            if rng.random() < 0.35:
+                kind = int(rng.integers(3))
+                (x.zero_ if kind == 0 else (box.zero_grad if kind == 1 else opt.zero_grad))()
+                total[:] = 0.0
+                g = x._grad
+                if g is not None and np.any(np.asarray(g) != 0):
+                    viol.append(V("exact:reset-left-a-gradient", "a reset left a non-zero gradient on the leaf", kind=["zero_", "module.zero_grad", "optimizer.zero_grad"][kind]))
+                    break
+    mv = [v for v in mon.drain() if not v["sig"].startswith(("grad-dtype", "release"))]
+    return {"key": ("exact", case["seed"] % 50), "viol": viol + mv, "counters": counters, "cover": {"scenarios": ["exact-powers-of-two"]}}
+
+
 def run_case(ns, mon, case):
+    if case.get("scenario") == "exact":
+        return run_exact(ns, mon, case)
     return run_history(ns, mon, case)
 
 
